@@ -348,6 +348,21 @@ def main():
                     what="in a fresh interpreter whose first neutron access is elements.%s[%d].neutron: b_c, absorption = %r, row %s of "
                          "the table says %r" % (sym, a, got, rows[(z, a)]["name"], want)))
                 break
+        # and the other order of tables: a private table is given its neutron data before the public table served any
+        code2 = ("import json, periodictable as pt\n"
+                 "from periodictable import core, mass, density, nsf\n"
+                 "t = core.PeriodicTable('first'); mass.init(t); density.init(t); nsf.init(t)\n"
+                 "print(json.dumps([[getattr(x.neutron, 'b_c', None), getattr(x.neutron, 'absorption', None)] for x in "
+                 "(pt.elements.Fe, pt.elements.Fe[56], t.Fe, t.Fe[56], pt.elements.Co, t.Co)]))\n")
+        p = subprocess.run([sys.executable, "-c", code2], stdout=subprocess.PIPE, stderr=subprocess.PIPE, text=True, timeout=300, cwd="/",
+                           env=dict(os.environ))
+        got = json.loads(p.stdout.strip().split("\n")[-1]) if p.returncode == 0 and p.stdout.strip() else ["raises", p.stderr[-200:]]
+        want = [[rows[k]["b_c"], rows[k]["absorption"]] for k in ((26, 0), (26, 56), (26, 0), (26, 56), (27, 59), (27, 59))]
+        if got != want:
+            out["direct_fails"].append(dict(
+                signature="C07:private-table-first", table="public", z=26, a=0, atom="Fe",
+                what="in a fresh interpreter: T = PeriodicTable('first'); mass.init(T); density.init(T); nsf.init(T); then b_c, absorption of "
+                     "elements.Fe, elements.Fe[56], T.Fe, T.Fe[56], elements.Co, T.Co are %r, the table says %r" % (got, want)))
     except Exception as e:  # noqa
         out["direct_fails"].append(dict(signature="C07:first-touch-through-isotope:raises", table="public", z=None, a=None, atom=None,
                                         what="the first-touch probes raised %s: %s" % (type(e).__name__, e)))
